@@ -658,10 +658,15 @@ def parse_assignment_indices(indices, shape):
                 # of the result of the original slice.
                 start, stop, step = index.indices(size)
                 step *= -1
-                div, mod = divmod(start - stop - 1, step)
-                div_step = div * step
-                start -= div_step
-                stop = start + div_step + 1
+                if start <= stop:
+                    # Empty selection (e.g. ``slice(1, 2, -1)``): there is
+                    # nothing to reverse; keep it empty.
+                    stop = start
+                else:
+                    div, mod = divmod(start - stop - 1, step)
+                    div_step = div * step
+                    start -= div_step
+                    stop = start + div_step + 1
 
                 index = slice(start, stop, step)
                 reverse.append(i)
